@@ -12,6 +12,14 @@ CLAIMS = {
         "real); aliases, handler tables and the call-level signature of 'put' are reflective scan obligations.",
    note="Trusted: pyvc's encoding of Python semantics, z3; SBlock.set_output contract (C02) with assumption A-C02; float = real "
         "arithmetic; amounts are numbers."),
+ 'C14': dict(
+   text="Circuit.is_ready, Circuit.findblock, ExtEvent.__init__, ExtEvent.send, check_name, Block.__init__ (naming clause) and Event.send "
+        "are executed from the real AST against contracts stating the property: send raises EdzedInvalidState and delivers nothing iff "
+        "not ready, otherwise exactly one dest.event call with the data, 'value' from the positional argument, a source item starting "
+        "with '_ext_' and all other items unchanged, returning the handler's result; names given explicitly cannot start with '_' "
+        "unless reserved; lemma no_forgery (string theory) over explicit, reserved (scan of the _reserved=True sites) and automatic names.",
+   note="Trusted: pyvc encoding, z3 string theory; event() contract (C11/C09); write-once _error (C09). Open known finding: automatic "
+        "names of classes called 'ext'/'ext_*' begin with '_ext_'. Assumption A-C14: filters do not rewrite 'source'."),
  'C16': dict(
    text="Event.send (filter loop with an inductive invariant over the pipeline fold), not_from_undef, Edge, Delta, IfOutput, "
         "IfNotIitialized, every DataEdit edit closure (add, setdefault, add_output, copy, rename, delete, permit, modify), the eight "
